@@ -5,6 +5,7 @@ import FhVerif.Model.HeadEnd
 import FhVerif.Model.ConnStates
 import FhVerif.Model.TimeoutSem
 import FhVerif.Model.BodyStream
+import FhVerif.Model.ReqConf
 namespace Fh.Driver
 open Fh Fh.Spec.Rfc
 
@@ -68,6 +69,20 @@ def opsConn (op : String) (a : List Bytes) : Option String :=
       | [100] => s.step .drop
       | _ => s) (⟨⟨c, p, 0⟩, true, false⟩ : Fh.Model.HS)
     some s!"{if fin.keep then "keep" else "close"} {fin.rs.connConsumed}"
+  | "reqconf", hook :: smax :: swt :: confs => do
+    -- per-request RequestConfig: server (hasHook, MaxRequestBodySize, WriteTimeout; no Read/IdleTimeout), then per request
+    -- "rt,wt,mb" (decimal, comma separated).  Reply per request: body limit, write deadline in force, and whether the
+    -- server waits for it under a read deadline set by an earlier request
+    let sm ← natOfDec? smax
+    let sw ← natOfDec? swt
+    let c : Fh.Model.ReqConf.SrvCfg := ⟨sm, sw, 0, 0, hook == [49]⟩
+    let ks ← confs.mapM fun (b : Bytes) =>
+      match (Fh.Spec.Rfc.splitOnByte 44 b).map natOfDec? with
+      | [some rt, some wt, some mb] => some (⟨rt, wt, mb⟩ : Fh.Model.ReqConf.Conf)
+      | _ => none
+    let seen := Fh.Model.ReqConf.run c 1 (Fh.Model.ReqConf.init c) ks
+    some (" ".intercalate (seen.map fun s =>
+      s!"{s.maxBody}:{if s.wdl then 1 else 0}:{if s.rdlWaiting == .request then 1 else 0}"))
   | "tosem", [cap, script] => do
     -- TimeoutHandler concurrency bound: script letters s (handler outlives its timeout) / f (returns at once)
     let n ← natOfDec? cap
